@@ -187,8 +187,22 @@ macro_rules! probe {
         if !kat_only() {
             let mut r = Sha256::new();
             for line in rare_lines() {
-                let f: Vec<&str> = line.split_whitespace().collect();
+                let f: Vec<&str> = line.split(' ').collect();
                 if f.len() < 3 || f[1].parse::<u32>().ok() != Some($set) {
+                    continue;
+                }
+                if f[0] == "V" {
+                    // crafted verification vector: V <set> <mode> <pk> <msg> <ctx> <sig>
+                    let vpk = fips204::$m::PublicKey::try_from_bytes(unhex(f[3]).try_into().expect("pk length")).expect("pk");
+                    let (vm, vctx) = (unhex(f[4]), unhex(f[5]));
+                    let vsig: [u8; fips204::$m::SIG_LEN] = unhex(f[6]).try_into().expect("sig length");
+                    let ok = match f[2] {
+                        "1" => vpk.hash_verify(&vm, &vsig, &vctx, &Ph::SHA256),
+                        "2" => vpk.hash_verify(&vm, &vsig, &vctx, &Ph::SHA512),
+                        "3" => vpk.hash_verify(&vm, &vsig, &vctx, &Ph::SHAKE128),
+                        _ => vpk.verify(&vm, &vsig, &vctx),
+                    };
+                    r.update([u8::from(ok)]);
                     continue;
                 }
                 let xi: [u8; 32] = unhex(f[2]).try_into().expect("xi");
